@@ -45,7 +45,7 @@ def inner_ref(s, e, msl):
     return [(a, b) for a in range(s + 1, e) for b in range(a + 1, e) if b - a >= msl and (a - s) + (e - b) >= msl]
 
 
-def cbs(n, p, msl, M, growth, scorer, thr_scale, X=None, level=None):
+def cbs(n, p, msl, M, growth, scorer, thr_scale, X=None, level=None, fit_rows=None):
     from skchange.anomaly_detectors import CircularBinarySegmentation as CBS
 
     kw = {} if level is None else {"level": level}
@@ -53,7 +53,7 @@ def cbs(n, p, msl, M, growth, scorer, thr_scale, X=None, level=None):
               growth_factor=growth, **kw)
     if X is None:
         X = pd.DataFrame(np.zeros((n, p)))
-    det.fit(X)
+    det.fit(X if not fit_rows else X.iloc[:fit_rows])
     y = det.predict(X)
     core.emit("CircularBinarySegmentation", y, n=len(X), p=X.shape[1], msl=msl)
     if len(y) and y["ilocs"].array.closed != "left":
@@ -228,7 +228,8 @@ def check_data(acc, case, key):
         X = X.reshape(-1, 1)
     n, p = X.shape
     msl, M, g = case["msl"], case["M"], case["growth"]
-    an, rows, thr = cbs(n, p, msl, M, g, make_score(case["score"]), case["thr_scale"], X=pd.DataFrame(X), level=case.get("level"))
+    an, rows, thr = cbs(n, p, msl, M, g, make_score(case["score"]), case["thr_scale"], X=pd.DataFrame(X), level=case.get("level"),
+                        fit_rows=case.get("fit_rows"))
     ref = make_score("L2" if case["score"] == "L2cost" else case["score"]).fit(X)
 
     def agg(s, e, inner):
@@ -375,6 +376,12 @@ def data_cases(tier, seed):
         for flat in itertools.product((0, 3), repeat=2 * n):
             x = [list(flat[2 * i:2 * i + 2]) for i in range(n)]
             yield {"fam": "data", "x": x, "score": "L2cost", "msl": 1, "M": n, "growth": 2.0, "thr_scale": 0.05}
+    # fitted on a shorter prefix, predicting the full series
+    for n in (7, 8) if tier == "quick" else (7, 8, 9):
+        for xs in itertools.product((0, 3), repeat=n):
+            for k, ts in ((3, 0.05), (n - 3, None)):
+                yield {"fam": "data", "x": list(xs), "score": "L2cost", "msl": 1, "M": 6, "growth": 1.5, "thr_scale": ts,
+                       "level": 0.3 if ts is None else None, "fit_rows": k}
 
 
 FAMILIES = {"onehot": lambda t, s: onehot_cases(t), "rowmax": lambda t, s: rowmax_cases(t),
